@@ -218,6 +218,11 @@ CARRIERS = [
     # xonsh nodes as the target of node-located diagnostics
     "x? = 1\n", "del x??\n", "p'/tmp' = 1\n", "for x? in y: pass\n", "with a as p'b': pass\n", "(x? := 1)\n",
     "$(ls) = 1\n", "del ![a]\n", "@(x) = 1\n", "g`*.py` = 1\n", "f!(x) = 1\n", "$X += $(y) = 2\n",
+    # string literals that make the literal evaluator warn (invalid escapes)
+    "x = \"\\d\"\n", "y = '\\/' + 'a\\ b'\n", "z = b'\\T'\n", "f'{a}\\H'\n", "$(echo '\\A')\n",
+    # escape sequences inside string and f-string literals (a cut source leaves them half-written)
+    "x = f\"\\N{EN DASH}{a}\\x41\\u00e9\"\n", "y = \"\\N{BULLET} \\U0001F600 \\101 \\n\"\n",
+    "z = f\'\'\'\\N{EM DASH}\n{b}\\\nc\'\'\'\n", "w = b\"\\x00\\377\" + rb\"\\N{x}\"\n",
     # version-gated constructs
     "try:\n    pass\nexcept* E:\n    pass\n",
     "type X = int\n",
@@ -275,6 +280,9 @@ KEYWORD_NAMES = [
     "async = 1\n", "print(await)\n", "def async(): pass\n", "await = 2\n", "match = 1\n", "case = 2\n", "type = 3\n",
     "_ = 4\n", "match x:\n    case _: pass\n", "type X = int\n", "print = 1\n", "exec 'x'\n", "nonlocal x\n",
     "async def f(): await g()\n", "x = [await y async for y in z]\n",
+    # soft keywords at the head of something that is not their statement
+    "x = match y\n", "case 1\n", "type x y\n", "_ 1\n", "match x y:\n", "match x:\n  case\n", "type X[T] =\n", "match(x)\n",
+    "case = match\n", "print(match, case, type, _)\n",
 ]
 PY_VERSIONS = [[3, 0], [3, 5], [3, 6], [3, 7], [3, 8], [3, 9], [3, 10], [3, 11], [3, 12], [3, 13]]
 
@@ -302,6 +310,20 @@ LONG_TOKENS = [
     "x = " + "\\" * 80 + "\n", "#" + "#" * 300 + "\n", "x = " + "'" * 91 + "\n", "`" + "a" * 200 + "`\n",
     "$" + "A" * 200 + "\n", "x" + " " * 300 + "= 1\n", "f'" + "{" * 40 + "}" * 40 + "'\n", "x = " + "-" * 150 + "1\n",
 ]
+
+
+def deep_valid() -> list[str]:
+    """Valid programs nested 12 to 40 brackets deep.  They are delivered undamaged and cut short (a cut leaves
+    unclosed brackets, which the tokenizer reports before any parsing starts); they are never otherwise damaged,
+    because an *error* below about ten brackets sends the diagnostic second pass into exponential time."""
+    out = []
+    for d in (12, 16, 20, 21, 22, 23, 28, 40):
+        out.append("x = " + "(" * d + "1" + ")" * d + "\n")
+        out.append("y = " + "[" * d + "]" * d + "\n")
+        out.append("z = " + "{" * d + "1" + "}" * d + "\n")
+        out.append("f(" * d + ")" * d + "\n")
+        out.append("a" + "[0]" * d + " = " + "(1,) + " * d + "()\n")
+    return out
 
 
 def build_pool() -> list[str]:
